@@ -7,6 +7,7 @@ let str_outcome = function OVal -> "value" | ODone -> "done"
 let render = function
   | EReg inl -> "ext REG " ^ b01 inl
   | ESet -> "ext SET"
+  | ESetNo -> "ext SETNO"
   | EDereg -> "ext DEREG"
   | ECbS -> "cb S.rel 1"
   | ECbL -> "cb L.acq 1"
@@ -24,16 +25,20 @@ let render = function
   | ERoot o -> "root " ^ str_outcome o
   | EDestroyed -> "op_destroyed"
 let () =
-  (* basicsender <first s|i|f|u|n> <second 0|1> | tid tid ... *)
+  (* basicsender <first s|i|f|u|n> <second 0|1> <breq n|v|s> <restop 0|1> | tid tid ... *)
   Registry.register "basicsender" (fun args ->
     match args with
-    | f :: s2 :: "|" :: tids ->
+    | f :: s2 :: bq :: rs :: "|" :: tids ->
       let p = { first = (match f with "s" -> FSync | "i" -> FInl | "f" -> FSafe | "u" -> FUnsafe | _ -> FNone);
-                second = (s2 = "1") } in
+                second = (s2 = "1");
+                breq = (match bq with "v" -> BValStop | "s" -> BStopVal | _ -> BNo);
+                restop = (rs = "1") } in
       let step t s = BasicSender.step p (nat_of_int t) s in
       let (st, tr) = Lockstep.run step render (BasicSender.init p) (ints_of_words tids) in
-      Printf.sprintf "%s # completions=%s late=%d destroyed=%s enabled=%s" tr
+      Printf.sprintf "%s # completions=%s calls=%s nstop=%d badstop=%d late=%d destroyed=%s enabled=%s" tr
         (str_list str_outcome (List.rev (BasicSender.completions st)))
+        (str_list str_outcome (List.rev (BasicSender.calls st)))
+        (n (BasicSender.nstop st)) (n (BasicSender.badstop st))
         (n (BasicSender.late st)) (b01 (BasicSender.destroyed st))
         (String.concat "," (List.filter_map (fun t -> match step t st with Some _ -> Some (string_of_int t) | None -> None) [0; 1; 2; 3; 4]))
     | _ -> "ERR args")
